@@ -110,8 +110,8 @@ def snap_shared(shared):
 
 def rel_of(d):
     if d.startswith('M'):
-        return '%s/pd/a.yaml' % d
-    return '%s/pd/o.yaml' % d if d.startswith('P') else '%s/policy.yaml' % d
+        return '%s/p[d]/a.yaml' % d
+    return '%s/p[d]/o.yaml' % d if d.startswith('P') else '%s/policy.yaml' % d
 
 
 class System:
@@ -133,11 +133,11 @@ class System:
                     self.content[d] = None
                     continue
                 if d.startswith(('P', 'M')):
-                    self.w.mkdir('%s/pd' % d)
+                    self.w.mkdir('%s/p[d]' % d)
                 if d.startswith('M'):
                     self.w.write('%s/policy.yaml' % d, world.dumps_policy(
                         {'svc:chg': 'role:fmain'}, 'json'))
-                    self.w.write('%s/pd/b.yaml' % d, world.dumps_policy(
+                    self.w.write('%s/p[d]/b.yaml' % d, world.dumps_policy(
                         {'svc:plain': 'role:fb', 'svc:new': 'role:fb'},
                         'json'))
                 self.w.write(rel_of(d),
@@ -158,7 +158,7 @@ class System:
 
     def make(self, d, end):
         conf = world.new_conf(self.w.path(d),
-                              policy_dirs=['pd'] if d.startswith(('P', 'M'))
+                              policy_dirs=['p[d]'] if d.startswith(('P', 'M'))
                               else [],
                               enforce_new_defaults=end)
         e = self.P.Enforcer(conf)
